@@ -148,6 +148,28 @@ def _special_case(args):
             with dclab.new_dataset(path) as ds:
                 out += summary_violations(ds, ["fl1_max"], W, case,
                                           {"int": True}, f"int {comp}")
+    elif which.startswith("inf"):
+        # every placement of finite / NaN / +inf / -inf values over four
+        # events, for one composition (which = "inf-<k>-<reopen>")
+        _, k, ro = which.split("-")
+        comp = list(compositions(4))[int(k)]
+        vals = (None, np.nan, np.inf, -np.inf)
+        for pl in itertools.product(range(4), repeat=4):
+            if not any(p >= 2 for p in pl):
+                continue
+            data = BASE[:4].copy()
+            for i, p in enumerate(pl):
+                if p:
+                    data[i] = vals[p]
+            if int(ro):
+                _write(path, data, comp)
+            else:
+                _write_one_writer(path, data, comp)
+            with dclab.new_dataset(path) as ds:
+                out += summary_violations(
+                    ds, ["deform"], W, case,
+                    {"inf": True, "parts": min(len(comp), 2)},
+                    f"appends {comp} of {data.tolist()}")
     elif which == "single":
         for val in (0.5, np.nan, np.inf):
             _write_one_writer(path, np.array([val]), (1,))
@@ -387,9 +409,11 @@ def run(ctx):
     nontriv = sum(r[1] for r in res)
     for r in res:
         viols.extend(r[2])
+    infs = [f"inf-{k}-{ro}" for k in range(len(list(compositions(4))))
+            for ro in (0, 1)]
     for vs in par.pmap(_special_case, [(w, scratch) for w in
-                                       ("int", "single", "replace",
-                                        "append-to-bare")]):
+                                       ["int", "single", "replace",
+                                        "append-to-bare"] + infs]):
         viols.extend(vs)
     steps = ["compress", "repack", "condense", "export", "export-filtered",
              "join2", "join3", "hierarchy", "hierarchy-nofilter",
@@ -399,7 +423,8 @@ def run(ctx):
     for vs in par.pmap(_production_case, pitems):
         viols.extend(vs)
     cov = {
-        "evaluations": evals + len(pitems) + 3,
+        "evaluations": evals + len(pitems) + 3 + len(infs) * 240,
+        "inf_placement_files": len(infs) * 240,
         "distinct_nontrivial": nontriv,
         "rule": "files = (composition of N events into append calls, with "
                 "one writer or re-opened per call) x all 2^N NaN placements; "
